@@ -41,8 +41,8 @@ type stratInfo struct {
 }
 
 var strategies = map[string]stratInfo{
-	"attestationdata/best":            {"att", "best", []string{"target+1", "target-1", "target-far", "nil-target", "nil-data"}, 4},
-	"attestationdata/majority":        {"att", "majority", []string{"target+1", "target-1", "target-far", "nil-target", "nil-data"}, 6},
+	"attestationdata/best":            {"att", "best", []string{"target+1", "target-1", "target-far", "stale-epoch", "stale-epoch", "stale-far", "ahead-epoch", "nil-target", "nil-data"}, 4},
+	"attestationdata/majority":        {"att", "majority", []string{"target+1", "target-1", "target-far", "stale-epoch", "stale-epoch", "stale-far", "ahead-epoch", "nil-target", "nil-data"}, 6},
 	"attestationdata/first":           {"att", "first", nil, 1},
 	"aggregateattestation/best":       {"agg", "best", []string{"nil-data"}, 3},
 	"aggregateattestation/first":      {"agg", "first", nil, 1},
